@@ -126,6 +126,12 @@ func scenario(p params, bounds []int) *vexp.Scenario {
 			}
 			s1 := wa.Ref("/s1")
 			switch p.fault {
+			case "idle":
+				// no fault at all: two bursts two minutes apart (longer than any handshake deadline or idle timer)
+				wa.Sys.Tell(s1, vsys.Msg{ID: "go"})
+				settle()
+				wa.Sys.Tell(s1, vsys.Msg{ID: "go"})
+				settle()
 			case "first-contact":
 				wa.Sys.Tell(s1, vsys.Msg{ID: "go"})
 				wa.Sys.Tell(wa.Ref("/s2"), vsys.Msg{ID: "go"})
@@ -270,6 +276,13 @@ func scenario(p params, bounds []int) *vexp.Scenario {
 					x.Fail("dead-letter-means-not-delivered", "%s was reported as a dead letter on the sending side but B received it", s)
 				}
 			}
+			if p.fault == "idle" {
+				for _, s := range sent {
+					if !seen[s] || dead[s] > 0 {
+						x.Fail("no-fault-no-loss", "no fault was injected, yet %s (retry limit %d) was not delivered (received %v, dead letters %v, net %v)", s, p.limit, atB, dead, nw.Log)
+					}
+				}
+			}
 			switch p.fault {
 			case "cut", "refuse", "restart":
 				// the last burst was sent while the peer was reachable
@@ -358,6 +371,9 @@ func build(tier string) []*vexp.Scenario {
 		for _, limit := range []int{0, 1, 3} {
 			out = append(out, scenario(params{"restart", k, -1, limit, 2}, b))
 		}
+	}
+	for _, limit := range []int{0, 1, 3} {
+		out = append(out, scenario(params{"idle", 0, -1, limit, 2}, []int{0, 1}))
 	}
 	for j := 0; j <= 1; j++ {
 		j := j
